@@ -407,3 +407,60 @@ def rule_R24_walk_free(ctx, rep, config="c-lib", tag=""):
 
 def rule_R24_walk_free_cxx(ctx, rep, config="cxx-lib"):
     rule_R24_walk_free(ctx, rep, config="cxx-lib", tag="[c++] ")
+
+
+def rule_R24_prime(ctx, rep, config="c-lib", tag=""):
+    rep.rule("R24-prime", "the size of a hash table is a prime (double hashing: the probe step 1 + h % (size - 2) must be coprime to the size, otherwise a probe sequence "
+                          "visits a part of the table only and a lookup of an absent element need not end).  higher_prime_number tries the odd divisors while "
+                          "i * i <= number and leaves that loop early when one divides: the candidate is returned exactly when the loop ran out, i.e. under the "
+                          "negation of the loop's own condition (with `>=' the square of a prime, left early at i * i == number, is returned as a prime)")
+    p = ctx.prog(config)
+    fs = [f for f in p.m.defined() if f.module and f.module.startswith("hashtab.") and (f.name == "higher_prime_number" or f.d.get("srcname") == "higher_prime_number")]
+    if len(fs) != 1:
+        raise AnalysisBroken("R24-prime: higher_prime_number not found in %s (%d)" % (config, len(fs)))
+    f = fs[0]
+    rep.cover(p, [f.name])
+    inner = None
+    for L in f.loops():
+        if any(i.op in ("urem", "srem") and i.block.name in L["body"] for i in f.all_insts()):
+            if inner is None or len(L["body"]) < len(inner["body"]):
+                inner = L
+    if inner is None:
+        raise AnalysisBroken("R24-prime: the trial-division loop of higher_prime_number was not found")
+    hdr = f.bmap[inner["header"]]
+    t = hdr.term
+    c1 = f.inst(t.ops[0]) if (t is not None and len(t.ops) == 3) else None
+    if c1 is None or c1.op != "icmp":
+        raise AnalysisBroken("R24-prime: the trial-division loop is not controlled by a comparison in its header")
+    stay = t.ops[2]["v"] in inner["body"]      # operand order of br: condition, false target, true target
+
+    def norm(c, pol):
+        a, b = repr(expr.lin(f, c.ops[0], 0, 1)), repr(expr.lin(f, c.ops[1], 0, 1))
+        pr = c.d["pred"]
+        if not pol:
+            pr = {"ule": "ugt", "ult": "uge", "uge": "ult", "ugt": "ule", "sle": "sgt", "slt": "sge", "sge": "slt", "sgt": "sle", "eq": "ne", "ne": "eq"}[pr]
+        if pr[1:] in ("gt", "ge"):
+            a, b, pr = b, a, pr[0] + {"gt": "lt", "ge": "le"}[pr[1:]]
+        return (a, pr, b)
+    loop_c = norm(c1, stay)
+    out_c = norm(c1, not stay)
+    rets = [r for r in f.all_insts() if r.op == "ret"]
+    from .r5 import _controlling_conditions
+    got = []
+    for r in rets:
+        for (cc, pol) in _controlling_conditions(f, r.block.name):
+            if cc.block.name in inner["body"] and cc.block.name != inner["header"]:
+                continue
+            got.append(norm(cc, pol))
+    key = tag + "higher_prime_number/returned-when-loop-ran-out"
+    if out_c in got:
+        rep.ok("R24-prime", key, sample={"loop": c1.where(), "loop_condition": " ".join(loop_c), "returned_under": " ".join(out_c)})
+    else:
+        rep.violation("R24-prime", key, "the candidate is returned under %s, which is not the negation of the condition `%s' of the trial-division loop: a candidate at "
+                      "which the loop was left early (a divisor was found) can be returned -- the square of a prime becomes a table size, a probe step that is a "
+                      "multiple of that prime visits only a part of the table, and a lookup of an absent element does not end once that part is full" % (
+                          [" ".join(g) for g in got] or "no comparison", " ".join(loop_c)), where=c1.where(), witness=[c1.where()] + [r.where() for r in rets])
+
+
+def rule_R24_prime_cxx(ctx, rep, config="cxx-lib"):
+    rule_R24_prime(ctx, rep, config="cxx-lib", tag="[c++] ")
